@@ -275,8 +275,20 @@ def render(files, inc, base=None, late=None, vary_case=False):
             mid = (1 + h % stop) if stop else 0
             if mid == 0:
                 lines.append("\t.link %o" % base if not symlink else "\t.link hbase9")
+        consts, blocked = set(), False
         for q, s in enumerate(f):
-            lines += stmt(s, inc_names)
+            if (s["k"] == "word" and len(s["es"]) == 1 and s["es"][0]["t"] == "sym" and s["es"][0]["n"] in consts and not blocked
+                    and not vary_case):
+                # a word list that is one constant assigned EARLIER in this file, in the implicit spelling: the bare name is parsed
+                # as an instruction and turned into '.word name' when the statement is compiled (compiler.compile_insn)
+                lines.append("\t" + s["es"][0]["n"])
+            else:
+                lines += stmt(s, inc_names)
+            if s["k"] == "const" and "." not in s["n"] and not s["n"][0].isdigit():
+                consts.add(s["n"])
+            elif s["k"] in ("include", "linkinc", "label", "end", "repeat"):
+                blocked = blocked or s["k"] != "label" or s["n"] in consts       # keep to the plain case: nothing else could name it
+                consts.discard(s.get("n"))
             if mid is not None and q + 1 == mid:
                 lines.append("\t.link %o" % base if not symlink else "\t.link hbase9")
             if symlink and s["k"] == "end":
